@@ -1,6 +1,7 @@
 package verifsim
 
 import (
+	"io"
 	"encoding/json"
 	"fmt"
 	"hash/fnv"
@@ -14,6 +15,7 @@ import (
 
 	"github.com/google/uuid"
 	"go.uber.org/zap"
+	"go.uber.org/zap/zapcore"
 
 	"github.com/metal-toolbox/audito-maldito/internal/simrt"
 	"github.com/metal-toolbox/audito-maldito/processors/auditd"
@@ -152,13 +154,30 @@ func hashStr(parts ...string) string {
 	return fmt.Sprintf("%016x", h.Sum64())
 }
 
-// familyFor maps a run index to a family (weighted round robin, deterministic).
+// align is the least common multiple of the families' group sizes.
+func (p *propDef) align() int {
+	a := 1
+	for _, f := range p.Families {
+		if f.Group > 1 {
+			g, x, y := f.Group, a, f.Group
+			for y != 0 {
+				x, y = y, x%y
+			}
+			a = a / x * g
+		}
+	}
+	return a
+}
+
+// familyFor maps a run index to a family (weighted round robin over blocks, deterministic).
 func (p *propDef) familyFor(index int) family {
 	tot := 0
 	for _, f := range p.Families {
 		tot += f.Weight
 	}
-	k := index % tot
+	// whole blocks of run indices go to one family, so that a family that enumerates something
+	// within each group of runs (Sub = index mod Group) sees every member of the group
+	k := (index / p.align()) % tot
 	for _, f := range p.Families {
 		if k < f.Weight {
 			return f
@@ -178,6 +197,12 @@ func (p *propDef) familyByName(n string) (family, bool) {
 }
 
 var nopLogger = zap.NewNop().Sugar()
+
+// debugLogger has every level enabled and discards what it is given.
+var debugLogger = zap.New(zapcore.NewCore(zapcore.NewJSONEncoder(zap.NewProductionEncoderConfig()), zapcore.AddSync(io.Discard), zapcore.DebugLevel)).Sugar()
+
+// runLogger is the logger handed to repository code constructed during the current run.
+var runLogger = nopLogger
 
 // execRun executes one run inside a fresh synctest bubble. The run happens on its own
 // goroutine: when the race detector has reported something the testing package ends the
@@ -253,8 +278,18 @@ func execRunInner(t *testing.T, rs RunSpec, keepTrace bool, res *Result) {
 		sim.Install()
 		defer sim.Uninstall()
 		uuid.SetRand(simrt.NewRandReader(runSeed))
-		auditd.SetLogger(nopLogger)
-		sshd.SetLogger(nopLogger)
+		// one run in three has the repository's loggers at debug level (output discarded), one run
+		// in four may preempt a task that holds a lock right before it releases it
+		// (decided by a hash of the run index, so that neither correlates with a family's groups)
+		hx := uint64(rs.Index)*0x9e3779b97f4a7c15 + 0x7f4a7c15
+		hx ^= hx >> 29
+		runLogger = nopLogger
+		if (hx>>8)%3 == 2 {
+			runLogger = debugLogger
+		}
+		sim.HeldPoints = (hx>>20)%4 == 3
+		auditd.SetLogger(runLogger)
+		sshd.SetLogger(runLogger)
 		rc := &RunCtx{T: t, Spec: spec, Sim: sim, R: res, Tier: rs.Tier, Index: rs.Index, Start: time.Now(),
 			states: map[string]struct{}{}, Sub: rs.Index % grp, Group: grp}
 		func() {
